@@ -113,4 +113,32 @@ def latest(nodes):
     counts[0] = len(nodes)
     return nodes[int(np.argmax(ends))], counts
 '''),
+    "PY7": dict(
+        positive='''
+from dataclasses import dataclass, field
+from typing import List, Optional
+@dataclass(frozen=True)
+class Generator:
+    edges: List[str]
+    pointers: Optional[List[int]] = field(default=None)
+    def __post_init__(self):
+        if self.pointers is None:
+            object.__setattr__(self, 'pointers', list(range(len(self.edges))))
+''',
+        negative='''
+from dataclasses import dataclass, field
+from typing import List
+@dataclass(frozen=True)
+class Generator:
+    edges: List[str]
+    _pointers: List[int] = field(init=False, default_factory=list)
+    label: str = field(default='')
+    def __post_init__(self):
+        object.__setattr__(self, '_pointers', list(range(len(self.edges))))
+        if not self.label:
+            object.__setattr__(self, 'label', 'generator')
+    @property
+    def pointers(self) -> List[int]:
+        return list(range(len(self.edges)))
+'''),
 }
